@@ -383,7 +383,6 @@ PREDS = [("gt", 1), ("lt", 3), ("modeq", 2, 0), ("neq", 2), ("eq", 1)]
 FUNS = [("add", 1), ("mul", 2), ("mod", 2), ("const", 4), ("id",)]
 KEYS = [("id",), ("mod", 2), ("mod", 3), ("mul", -1), ("const", 0)]
 F18 = {"function": "insert", "receiver": "one-shot iterator", "position": "negative"}
-F20 = {"function": "assert", "receiver": "an already memorized iterator (result of memorize / defaultIfEmpty / assert)"}
 
 
 def law_fail(run, law, text, l, kind, observed, required, extra=None):
@@ -534,14 +533,13 @@ def check_laws_on(run, l, rng=None):
                 if val(a) != want:
                     law_fail(run, "a let-bound re-iterable collection (tuple, list, OrderingIterable, memorized iterator) shows all its elements "
                                   "to every traversal, nested or simultaneous ones included", text, l, kind, a, repr(want))
-        # --- assert hands its (memorized) receiver on unchanged - also when the receiver was memorized before (F20)
+        # --- assert hands its (memorized) receiver on unchanged - also when the receiver was memorized before (F24, fixed)
         if kind == "iter" and n and rng is None:
             for text in ("$.memorize().assert($.any())", "$.assert($.any()).assert($.any())", "$.defaultIfEmpty([0]).assert($.any())"):
                 a = ev(text, l, kind)
                 run.case(("memo-assert", l, text))
                 if val(a) != tuple(L):
-                    law_fail(run, "x.assert(condition) returns x: all its elements, each once", text, l, kind, a, repr(L),
-                             {"finding_class": F20} if a[0] == "val" and len(val(a)) > n and val(a)[:1] == tuple(L[:1]) else None)
+                    law_fail(run, "x.assert(condition) returns x: all its elements, each once", text, l, kind, a, repr(L))
         # --- grouping
         for kf in ([KEYS[1], KEYS[2]] if rng is None else [rng.choice(KEYS)]):
             a = ev("$.groupBy(%s)" % sc.lam_body(kf), l, kind)
@@ -628,5 +626,5 @@ def replay(run, data):
     else:
         differential(run, [l])
     new = [f for f in run.failures[before:] if f.kind == "violation"]
-    known = [{"class": F18, "line": "F18"}, {"class": F20, "line": "F20"}]
+    known = [{"class": F18, "line": "F18"}]
     return not [f for f in new if not classify(f, known)]
